@@ -653,7 +653,7 @@ func checkDamaged(c *core.Case, cfg tsdbhist.Config, orig *tsdbhist.Exec, events
 				diff += " [this (t,value) was appended to " + other + "]"
 			}
 		}
-		if k, t, ok := parseMissing(diff); ok && d.tg.class == "chunks_head" && inWAL[k][t] && !orig.IsMaybeOOO(k, t) {
+		if k, t, ok := parseMissing(diff); ok && d.tg.class == "chunks_head" && inWAL[k][t] && (!orig.IsMaybeOOO(k, t) || orig.IsInOrderSure(k, t)) {
 			// Known-finding predicate: head-chunk file damaged, the missing in-order sample is still
 			// in the WAL, and the series has later samples from intact m-mapped chunks: WAL replay
 			// skips every sample at or below the newest m-mapped chunk's max time.
